@@ -32,6 +32,10 @@ def monitor_parsed(case, p):
     # M < 1 keeps 1 + f away from zero; a kernel frequency <= -1 is not a frequency
     f0 = g.unbits(case["f0"])
     sane_f0 = all_finite and f0 > -1.0
+    # the property quantifies over configurations with positive limits: with a zero or negative
+    # slew_minimum_duration / slew_maximum_frequency_offset the code divides by it and the NaN is the
+    # configuration's, not a violation
+    positive_limits = (M > 0 and slew_max > 0 and dur > 0 and g.unbits(p.floats[0]) >= 0)
     for rec in p.ops:
         op = rec["op"]
         if op[0] == "M":
@@ -49,7 +53,7 @@ def monitor_parsed(case, p):
             if M != M or M < 0:
                 return ("set_frequency reached although maximum_frequency_steer=%r should fail the clamp assertion" % M, {"freq_bits": a})
             if isnan_bits(a):
-                if all_finite and sane_f0 and M < 1.0:
+                if all_finite and sane_f0 and M < 1.0 and positive_limits:
                     return ("set_frequency(NaN) although every input of the history was finite (M=%r)" % M, {"freq_bits": a})
                 continue
             f = g.unbits(a)
